@@ -61,6 +61,13 @@ RULE = (
     'present (or the site takes no regularizer), or some geometry contains an '
     'all-padding batch, or a client has no example. distinct = distinct '
     'canonical case JSON.')
+RULE += (
+    ' '
+    'Later widenings: datasets with a preprocessor and a feature `one` on which the losses ar'
+    'e NaN for all-zero padding rows; a real example with an infinite target; bfloat16 losses'
+    ' over several hundred rows; a peek at the first batch of a view before the evaluated pas'
+    's; cluster losses with the evaluator built on the pmap / debug backend and inside the k-'
+    'means++ initializer; Mime cohorts that list a client twice.')
 ASSUMPTIONS = [
     'per-example losses are rng-independent (an rng-dependent loss is '
     'legitimately geometry-dependent: the key is split once per batch) and '
